@@ -11,10 +11,15 @@ VO = ["theories/Reductions/Moments.vo", "theories/Reductions/Moments_proofs.vo",
       "theories/Reductions/Reduction.vo", "theories/Reductions/Reduction_proofs.vo",
       "theories/Reductions/MomentsIO.vo", "theories/Base/Flat.vo",
       # the BoundedGroupLoss cases reuse C06's term, which also evaluates the MeanLoss model
-      "theories/Reductions/MomentBridge.vo", "theories/Reductions/MomentBridgeIO.vo"]
+      "theories/Reductions/MomentBridge.vo", "theories/Reductions/MomentBridgeIO.vo",
+      # second phase: optional multiplier of the loss moments, single-label branch, linearity; their wire glue
+      "theories/Reductions/ReductionExt.vo", "theories/Reductions/ReductionExt_proofs.vo",
+      "theories/Reductions/ReductionIO.vo"]
 PROPS_FILES = ["props/C07.v"]
-TRANSLATORS = ["t_moments"]
-REQUIRES = ["From FL Require Import Num Flat Moments Reduction MomentsIO MomentBridge MomentBridgeIO."]
+TRANSLATORS = ["t_moments", "t_reduction"]
+REQUIRES = ["From FL Require Import Num Flat Moments Reduction MomentsIO MomentBridge MomentBridgeIO ReductionExt "
+            "ReductionIO."]
+SEARCH_CAP = 800         # cases searched after a broken obligation (the thorough generator, next seed)
 SHARD = 25
 CHUNK = 2
 CASE_TIMEOUT = 1200      # wall-clock alarm per case; a case needs ~1-3 s, the margin absorbs a heavily shared machine
@@ -28,8 +33,15 @@ LEVEL_TEXT = ("Proof (Coq) about the executable models Moments.v / Reduction.v: 
               "w_i = lambda_g(i)/P(g(i)); on hard hypotheses the weighted 0/1 error against labels 1[w>0] with weights "
               "|w| orders hypotheses exactly as objective + lambda.(gamma - bound), also after the n/sum|w| rescaling of "
               "_call_oracle; project_lambda is non-negative and never lowers the Lagrangian for r = 1, eps >= 0, "
-              "lambda >= 0, and is the identity for r != 1. Tie to the code: translator t_moments (signed_weights "
-              "expression and the U-column expressions, fail closed) + differential run of the same Gallina "
+              "lambda >= 0, and is the identity for r != 1; all three signed_weights are linear in the multiplier; "
+              "signed_weights() of a loss moment is the all-ones vector = the weights of the multiplier prob_attr, "
+              "which turn (1/n) sum w_i loss_i into the mean loss; in the single-label branch of _call_oracle the "
+              "untrained constant classifier has weighted error 0 and minimises the Lagrangian over hard hypotheses. "
+              "Tie to the code: translator t_moments (signed_weights "
+              "expression and the U-column expressions, fail closed), translator t_reduction (whole bodies of "
+              "UtilityParity.project_lambda and ConditionalLossMoment.signed_weights; ErrorRate costs / index / gamma / "
+              "signed_weights; the weight, relabel, abs, normalise and single-label lines of _call_oracle, the rest "
+              "of it literally; props/C07.v C07_src_* are closed by conversion only) + differential run of the same Gallina "
               "definitions against signed_weights / project_lambda and against the (y', w') that "
               "_Lagrangian._call_oracle and GridSearch.fit hand to a recording estimator; the identities are also "
               "evaluated on the implementation's own gamma / signed_weights (property oracle).")
@@ -37,7 +49,7 @@ LEVEL_NOTE = ("Trusted: Coq kernel + vm_compute; the harness (generators, canoni
               "Series alignment / DataFrame.dot and float64 arithmetic are modelled over exact rationals (1e-8). "
               "Relabelling of rows whose exact weight is 0 is not compared (their label cannot matter).")
 TECHNIQUE = "Coq proof on an executable model + source translator + differential model/implementation run + identity residual on the implementation"
-TRUSTED = ["Coq 8.16.1 kernel and vm_compute", "translators/t_moments.py", "harness/props/c07.py, c06.py, _c06_common.py", "pandas / numpy "
+TRUSTED = ["Coq 8.16.1 kernel and vm_compute", "translators/t_moments.py", "translators/t_reduction.py", "harness/props/c07.py, c06.py, _c06_common.py", "pandas / numpy "
            "(modelled)", "no axioms (Print Assumptions: closed)"]
 ASSUMPTIONS = ["labels are 0/1; predictions in [0,1] for the ErrorRate identities (the parity identity needs neither)",
                "float64 results are compared with exact rationals at 1e-8 on small / dyadic inputs",
@@ -46,7 +58,11 @@ RULE = ("cases: C06 datasets (n<=14, 2..4 groups, 0..3 control strata, degenerat
         "moments x {default, difference, ratio in {1, 9/10, 1/2, 1/4}} x ErrorRate cost pairs; per dataset every "
         "unit multiplier, 3 random non-negative dyadic multipliers and one signed multiplier; zero / one / unit / "
         "soft / random hard predictors; BoundedGroupLoss with both losses; non-trivial = index non-empty, some "
-        "event with >= 2 groups and a multiplier that changes at least one label")
+        "event with >= 2 groups and a multiplier that changes at least one label; in every second case (hash of "
+        "the case) every moment / objective object - also those handed to _Lagrangian and GridSearch - is first "
+        "loaded with other data (same shape, then one row fewer and two groups) and exercised; zero, all-ones, "
+        "sum-of-two and repeated multipliers for the linearity / repeatability oracles; ErrorRate multipliers "
+        "0, 1, 2, -1/2, 3/4")
 EXHAUSTIVE = {"quick": False, "thorough": False}
 PARTIAL = []
 
@@ -95,7 +111,7 @@ def cases(tier, seed):
 def impl(case):
     import numpy as np, pandas as pd
     if case["fam"] == "bgl":
-        return C6.impl_bgl(case)
+        return impl_bgl(case)
     import fairlearn.reductions as red
     from fairlearn.reductions._exponentiated_gradient._lagrangian import _Lagrangian
     X, y, kw = K.data_kwargs(case)
@@ -103,13 +119,13 @@ def impl(case):
     m = K.make_moment(case)
     pre = K.preload_flag(case)
     if pre:
-        K.decoy_load(m, X, y, kw)
+        _decoy(m, X, y, kw)
     m.load_data(X, y, **kw)
     mk_obj = (lambda: red.ErrorRate()) if case["fp"] is None else \
         (lambda: red.ErrorRate(costs={"fp": float(F(case["fp"])), "fn": float(F(case["fn"]))}))
     obj = mk_obj()
     if pre:
-        K.decoy_load(obj, X, y, kw)
+        _decoy(obj, X, y, kw)
     obj.load_data(X, y, **kw)
     index = K.canon_index(m)
     nidx = len(index)
@@ -132,7 +148,11 @@ def impl(case):
         ro = E[a] - E[b] + float(np.sum(wobj * (H[a] - H[b]))) / n
         if abs(ro) > abs(res["obj_resid"]):
             res["obj_resid"] = ro
-    lag = _Lagrangian(X=X, y=y, estimator=K.Rec(), constraints=K.make_moment(case), B=10.0, objective=mk_obj(), **kw)
+    lag_m, lag_o = K.make_moment(case), mk_obj()
+    if pre:          # _Lagrangian.__init__ loads both objects itself: what it uses must come from THAT load only
+        _decoy(lag_m, X, y, kw)
+        _decoy(lag_o, X, y, kw)
+    lag = _Lagrangian(X=X, y=y, estimator=K.Rec(), constraints=lag_m, B=10.0, objective=lag_o, **kw)
     lvs = []
     for t, lam in enumerate(lams):
         lv = pd.Series([float(F(v)) for v in lam], index=m.index, dtype=float)
@@ -179,16 +199,137 @@ def impl(case):
     default_costs = case["fp"] is None or (F(case["fp"]) == 1 and F(case["fn"]) == 1)
     if nidx and default_costs:          # GridSearch always uses the default objective ErrorRate()
         grid = pd.DataFrame({t: lv for t, lv in enumerate(lvs)})
-        gs = red.GridSearch(K.Rec(), constraints=K.make_moment(case), grid=grid)
+        gs_m = K.make_moment(case)
+        if pre:
+            _decoy(gs_m, X, y, kw)
+        gs = red.GridSearch(K.Rec(), constraints=gs_m, grid=grid)
         gs.fit(X, y, **kw)
         res["gs"] = [K.recorded(p) for p in gs.predictors_]
+    # ---- second phase: linearity in the multiplier, repeatability, ErrorRate with a multiplier
+    SW = [np.asarray(v, dtype=float) for v in res["sw"]]
+    lin = {"zero": 0.0, "ones": 0.0, "comb": 0.0, "add": 0.0, "repeat": 0.0, "gamma": 0.0, "at": None}
+
+    def upd(key, arr, at=None):
+        v = float(np.max(np.abs(arr))) if len(arr) else 0.0
+        if v > lin[key]:
+            lin[key] = v
+            lin["at"] = at if at is not None else lin["at"]
+    upd("zero", np.asarray(m.signed_weights(pd.Series(0.0, index=m.index, dtype=float)).values, dtype=float))
+    base = sum((SW[j] for j in range(nidx)), np.zeros(n))
+    upd("ones", np.asarray(m.signed_weights(pd.Series(1.0, index=m.index, dtype=float)).values, dtype=float) - base)
+    for t in range(nidx, len(lams)):
+        comb = sum((float(F(lams[t][j])) * SW[j] for j in range(nidx)), np.zeros(n))
+        upd("comb", SW[t] - comb, t)
+    if len(lams) >= nidx + 2:
+        a, b = lvs[nidx], lvs[nidx + 1]
+        upd("add", np.asarray(m.signed_weights(a + b).values, dtype=float) - SW[nidx] - SW[nidx + 1])
+    for t in (0, len(lams) - 1):          # the same call again, after all the others
+        upd("repeat", np.asarray(m.signed_weights(lvs[t]).values, dtype=float) - SW[t], t)
+    for a in (1, len(H) - 1):             # gamma is not disturbed by the calls in between
+        upd("gamma", np.asarray((m.gamma(K.fixed(case["hs"][a])) - G[a]).values, dtype=float))
+    res["lin"] = lin
+    res["er_index"] = [str(v) for v in obj.index]
+    res["er_lam"] = []
+    res["er_lin"] = 0.0
+    for l in ER_LAMS:
+        lv1 = pd.Series([float(F(l))], index=obj.index, dtype=float)
+        wl = np.asarray(obj.signed_weights(lv1).values, dtype=float)
+        res["er_lam"].append([float(v) for v in wl])
+        res["er_lin"] = max(res["er_lin"], float(np.max(np.abs(wl - float(F(l)) * wobj))))
+        pl = obj.project_lambda(lv1)
+        if list(pl.index) != list(lv1.index) or float(pl.iloc[0]) != float(lv1.iloc[0]):
+            res["er_lin"] = float("inf")
+    res["er_lin"] = max(res["er_lin"], float(np.max(np.abs(np.asarray(obj.signed_weights().values, dtype=float) - wobj))))
+    return res
+
+
+ER_LAMS = ["0", "1", "2", "-1/2", "3/4"]
+
+
+def _decoy(m, X, y, kw):
+    """two decoy loads before the real one: K.decoy_load (same shape: labels flipped / reversed, groups rotated) and a
+    smaller data set (last row dropped, two alternating groups, no strata change) whose index differs"""
+    import numpy as np, pandas as pd
+    K.decoy_load(m, X, y, kw)
+    n = len(y)
+    if n < 4:
+        return
+    ya = np.asarray(y)[: n - 1]
+    kw2 = {k: list(v)[: n - 1] for k, v in kw.items()}
+    kw2["sensitive_features"] = [K.GNAMES[i % 2] for i in range(n - 1)]
+    try:
+        m.load_data(X.iloc[: n - 1], pd.Series(ya[::-1].copy()), **kw2)
+        m.gamma(lambda X_: np.ones(n - 1))
+    except Exception:
+        pass
+
+
+def impl_bgl(case):
+    """C06's BoundedGroupLoss run + signed_weights() / linearity / MeanLoss weights"""
+    import numpy as np, pandas as pd
+    import fairlearn.reductions as red
+    from fairlearn.reductions._moments.bounded_group_loss import MeanLoss
+    res = C6.impl_bgl(case)
+    L = red.SquareLoss if case["loss"] == "sq" else red.AbsoluteLoss
+    lo, hi = float(F(case["lo"])), float(F(case["hi"]))
+    n = len(case["g"])
+    X = pd.DataFrame({"id": list(range(n))})
+    y = pd.Series([float(F(v)) for v in case["yq"]])
+    kw = {"sensitive_features": [K.GNAMES[g] for g in case["g"]]}
+    m = red.BoundedGroupLoss(L(lo, hi), upper_bound=None if case["ub"] is None else float(F(case["ub"])))
+    ml = MeanLoss(L(lo, hi))
+    for o in (m, ml):
+        if K.preload_flag(case):
+            _decoy(o, X, y, kw)
+        o.load_data(X, y, **kw)
+    ng = len(m.index)
+    arr = lambda s: np.asarray(s.values, dtype=float)
+    ext = {"index": [K.GNAMES.index(g) for g in m.index]}
+    w_none = arr(m.signed_weights())
+    ext["w_none"] = [float(v) for v in w_none]
+    ext["prob_attr"] = [float(v) for v in m.prob_attr.values]
+    ext["dolv"] = [float(v) for v in m.default_objective_lambda_vec.values]
+    ext["w_prob"] = [float(v) for v in arr(m.signed_weights(m.prob_attr))]
+    units = [arr(m.signed_weights(pd.Series([1.0 if j == t else 0.0 for j in range(ng)], index=m.index))) for t in range(ng)]
+    lin = {"zero": float(np.max(np.abs(arr(m.signed_weights(pd.Series(0.0, index=m.index)))))),
+           "ones": float(np.max(np.abs(arr(m.signed_weights(pd.Series(1.0, index=m.index))) - sum(units, np.zeros(n))))),
+           "comb": 0.0, "add": 0.0, "repeat": 0.0, "proj": 0.0}
+    LV, WS = [], []
+    for lam in case.get("lams", []):
+        lv = pd.Series([float(F(v)) for v in lam][:ng], index=m.index)
+        w = arr(m.signed_weights(lv))
+        LV.append(lv); WS.append(w)
+        comb = sum((float(lv.iloc[j]) * units[j] for j in range(ng)), np.zeros(n))
+        lin["comb"] = max(lin["comb"], float(np.max(np.abs(w - comb))))
+        pl = m.project_lambda(lv)
+        if list(pl.index) != list(lv.index) or any(float(a) != float(b) for a, b in zip(pl.values, lv.values)):
+            lin["proj"] = 1.0
+    if len(LV) >= 2:
+        a, b = LV[-1], LV[-2]
+        lin["add"] = float(np.max(np.abs(arr(m.signed_weights(a + b)) - WS[-1] - WS[-2])))
+    if LV:
+        lin["repeat"] = float(np.max(np.abs(arr(m.signed_weights(LV[0])) - WS[0])))
+    lin["repeat"] = max(lin["repeat"], float(np.max(np.abs(arr(m.signed_weights()) - w_none))))
+    ext["lin"] = lin
+    # MeanLoss (the default objective): unit weights, and the mean-loss identity on the implementation's numbers
+    ext["ml_none"] = [float(v) for v in arr(ml.signed_weights())]
+    ext["ml_two"] = [float(v) for v in arr(ml.signed_weights(pd.Series([2.0], index=ml.index)))]
+    mres = 0.0
+    for h in case["hs"]:
+        gm = ml.gamma(K.fixed(h))
+        lossv = np.asarray(ml.tags["loss"].values, dtype=float)
+        mres = max(mres, abs(float(gm.iloc[0]) - float(np.sum(arr(ml.signed_weights()) * lossv)) / n))
+        gb = m.gamma(K.fixed(h))           # BoundedGroupLoss with the multiplier prob_attr gives the same number
+        mres = max(mres, abs(float(gb.dot(m.prob_attr)) - float(np.sum(w_none * np.asarray(m.tags["loss"].values, dtype=float))) / n))
+    ext["ml_resid"] = mres
+    res["ext"] = ext
     return res
 
 
 # --------------------------------------------------------------------------- model
 def term(case, out):
     if case["fam"] == "bgl":
-        return C6.term(case, out)
+        return f"run_bgl_ext {C6.g_lrows(case)} ++ ({C6.term(case, out)})"
     if out is None:
         return None
     fp = F(case["fp"]) if case["fp"] is not None else 1
@@ -200,15 +341,22 @@ def term(case, out):
             if eg and F(v) != 0:
                 spec.append(f"({gz(s)}, {gnat(eg[0])}, {gq(F(v))})")
         specs.append(glist(spec))
-    return (f"run_red {case['moment']} {K.g_oq(case['db'])} {K.g_oq(case['rb'])} {gq(F(case['slack']))} "
+    args = (f"{case['moment']} {K.g_oq(case['db'])} {K.g_oq(case['rb'])} {gq(F(case['slack']))} "
             f"{gq(fp)} {gq(fn)} {K.g_rows(case)} {glist(specs)}")
+    return f"run_red {args} ++ run_red_ext {args} {K.g_qs(ER_LAMS)}"
 
 
 def decode(case, zs):
     if case["fam"] == "bgl":
-        return C6.decode(case, zs)
+        d = Dec(zs)
+        ext = {"w_none": d.list(d.q), "prob_attr": d.list(d.q), "w_prob": d.list(d.q)}
+        mod = C6.decode(case, zs[d.i:])
+        mod["ext"] = ext
+        return mod
     d = Dec(zs)
     if d.z() == 0:
+        if d.z() != 0:
+            raise ValueError("run_red and run_red_ext disagree on the configuration")
         d.done()
         return {"config_error": True}
     index = K.dec_index(d)
@@ -217,8 +365,13 @@ def decode(case, zs):
         return {"lam": d.list(d.q), "sw": d.list(d.q), "proj": d.list(d.q), "w": d.list(d.q),
                 "relabel": d.list(d.q), "reweight": d.list(d.q), "reweight_eg": d.opt(lambda: d.list(d.q))}
     per = d.list(one)
+    if d.z() != 1:
+        raise ValueError("run_red and run_red_ext disagree on the configuration")
+    er_index = d.list(d.z)
+    er_lam = d.list(lambda: d.list(d.q))
+    dummy = d.list(lambda: d.opt(d.q))
     d.done()
-    return {"config_error": False, "index": index, "per": per}
+    return {"config_error": False, "index": index, "per": per, "er_index": er_index, "er_lam": er_lam, "dummy": dummy}
 
 
 # --------------------------------------------------------------------------- comparison
@@ -257,7 +410,7 @@ def compare(case, out, model):
                 v.append((f"{PID}/BoundedGroupLoss/signed_weights/differs-from-model", f"{a} vs {b}",
                           "w_i = lambda_g(i) / P(g(i))", "correspondence"))
                 break
-        return v
+        return v + _compare_bgl_ext(out["ext"], model["ext"])
     name = K.KINDS[case["moment"]]
     if model["config_error"]:
         v.append((f"{PID}/harness/config", "generator produced an invalid bound configuration", "", "correspondence"))
@@ -322,12 +475,78 @@ def compare(case, out, model):
                       f"weights {[str(x) for x in per['reweight']]}",
                       "y' = 1[w>0], w' = |w|, w = objective weights + signed_weights(lambda)", "correspondence"))
             break
+    # ---- second phase
+    lin = out["lin"]
+    worst = max(lin[k] for k in ("zero", "ones", "comb", "add"))
+    if worst > TOL:
+        v.append((f"{PID}/{name}/signed_weights/not-linear",
+                  f"|w(0)| = {lin['zero']}, |w(1) - sum_j w(e_j)| = {lin['ones']}, |w(lam) - sum_j lam_j w(e_j)| = "
+                  f"{lin['comb']} (multiplier #{lin['at']}), |w(a+b) - w(a) - w(b)| = {lin['add']}",
+                  "signed_weights is linear in the multiplier (w(0) = 0, w(a+b) = w(a) + w(b))", "property"))
+    if lin["repeat"] > TOL or lin["gamma"] > TOL:
+        v.append((f"{PID}/{name}/signed_weights/state-dependent",
+                  f"the same call repeated differs by {lin['repeat']}; gamma after the calls differs by {lin['gamma']}",
+                  "signed_weights / project_lambda / gamma depend on the last load_data and their argument only",
+                  "property"))
+    if out["er_lin"] > TOL:
+        v.append((f"{PID}/ErrorRate/signed_weights/not-linear", f"max |w(l) - l w()| = {out['er_lin']}",
+                  "ErrorRate.signed_weights(l) = l * signed_weights(), project_lambda is the identity", "property"))
+    if len(out["er_index"]) != len(model["er_index"]) or out["er_index"] != ["all"] * len(model["er_index"]):
+        v.append((f"{PID}/ErrorRate/index/differs-from-model", f"{out['er_index']} vs {model['er_index']}",
+                  "index = [all]", "correspondence"))
+    for l, a, b in zip(ER_LAMS, out["er_lam"], model["er_lam"]):
+        if not _vec_close(a, b):
+            v.append((f"{PID}/ErrorRate/signed_weights-lambda/differs-from-model",
+                      f"l = {l}: implementation {a} model {[str(x) for x in b]}",
+                      "w_i = l * (-c_fp + (c_fp + c_fn) y_i)", "correspondence"))
+            break
+    for t, (per, dm) in enumerate(zip(model["per"], model["dummy"])):
+        if any(w == 0 for w in per["w"]) or not per["w"]:
+            continue          # a row of exact weight 0: its label is decided by float noise
+        rec = out["eg"][t]
+        got = rec["constant"] if rec["kind"] == "dummy" else None
+        if (dm is None) != (got is None) or (dm is not None and float(dm) != got):
+            v.append((f"{PID}/_call_oracle/single-label/differs-from-model",
+                      f"multiplier #{t}: implementation {rec['kind']} {got}; model constant {dm}",
+                      "one relabelled class c: DummyClassifier(constant=c), otherwise the estimator is trained",
+                      "correspondence"))
+            break
+    return v
+
+
+def _compare_bgl_ext(o, mo):
+    v = []
+    nm = "BoundedGroupLoss"
+    if not _vec_close(o["w_none"], mo["w_none"]):
+        v.append((f"{PID}/{nm}/signed_weights-default/differs-from-model", f"{o['w_none']} vs {[str(x) for x in mo['w_none']]}",
+                  "signed_weights() = 1 for every row", "correspondence"))
+    if not _vec_close(o["prob_attr"], mo["prob_attr"]) or not _vec_close(o["dolv"], mo["prob_attr"]):
+        v.append((f"{PID}/{nm}/prob_attr/differs-from-model", f"{o['prob_attr']} / {o['dolv']} vs {[str(x) for x in mo['prob_attr']]}",
+                  "prob_attr = default_objective_lambda_vec = group size / n", "correspondence"))
+    if not _vec_close(o["w_prob"], mo["w_prob"]):
+        v.append((f"{PID}/{nm}/signed_weights-prob_attr/differs-from-model", f"{o['w_prob']} vs {[str(x) for x in mo['w_prob']]}",
+                  "signed_weights(prob_attr) = 1 for every row", "correspondence"))
+    lin = o["lin"]
+    if max(lin[k] for k in ("zero", "ones", "comb", "add")) > TOL:
+        v.append((f"{PID}/{nm}/signed_weights/not-linear",
+                  f"|w(0)| = {lin['zero']}, |w(1) - sum_j w(e_j)| = {lin['ones']}, |w(lam) - sum_j lam_j w(e_j)| = "
+                  f"{lin['comb']}, |w(a+b) - w(a) - w(b)| = {lin['add']}",
+                  "signed_weights is linear in the multiplier (w(0) = 0, w(a+b) = w(a) + w(b))", "property"))
+    if lin["repeat"] > TOL or lin["proj"] > 0:
+        v.append((f"{PID}/{nm}/signed_weights/state-dependent",
+                  f"the same call repeated differs by {lin['repeat']}; project_lambda identity violated: {lin['proj']}",
+                  "signed_weights / project_lambda depend on the last load_data and their argument only", "property"))
+    if o["ml_resid"] > TOL or any(abs(x - 1.0) > TOL for x in o["ml_none"]) or any(abs(x - 2.0) > TOL for x in o["ml_two"]):
+        v.append((f"{PID}/MeanLoss/mean-loss-identity/residual",
+                  f"residual {o['ml_resid']}; signed_weights() = {o['ml_none']}; signed_weights([2]) = {o['ml_two']}",
+                  "mean loss = (1/n) sum_i w_i loss_i with w = signed_weights() = 1 (= weights of the multiplier prob_attr)",
+                  "property"))
     return v
 
 
 def tags(case, out, model):
     if case["fam"] == "bgl":
-        return ["fam:bgl", f"loss:{case['loss']}"]
+        return ["fam:bgl", f"loss:{case['loss']}", "decoy-load:" + ("yes" if K.preload_flag(case) else "no")]
     t = ["fam:parity", f"moment:{case['moment']}",
          "strata:" + ("none" if case["c"] is None else str(len(set(case["c"])))),
          "bound:" + ("default" if case["db"] is None and case["rb"] is None else "difference" if case["rb"] is None
@@ -335,6 +554,10 @@ def tags(case, out, model):
          f"index:{len(out['index'])}", "costs:" + ("default" if case["fp"] is None else f"{case['fp']},{case['fn']}")]
     if any(r["kind"] == "dummy" for r in out["eg"]):
         t.append("oracle:some-dummy")
+    t.append("decoy-load:" + ("yes" if K.preload_flag(case) else "no"))
+    if model and not model.get("config_error") and any(
+            dm is not None and all(w != 0 for w in per["w"]) for per, dm in zip(model["per"], model["dummy"])):
+        t.append("single-label:compared")
     return t
 
 
